@@ -11,6 +11,7 @@ package main
 //     garbage, hang) or realised by dialling a closed local port (refused).
 
 import (
+	"context"
 	"errors"
 	"fmt"
 	"io"
@@ -31,8 +32,9 @@ import (
 )
 
 // Fault kinds on the line protocol (the model's Outcome): error, timeout, deny, malformed.
-// Sub selects the realisation where several exist (webhook error: "5xx" | "refused";
-// webhook malformed: "garbage" | "4xx").
+// Sub selects the realisation where several exist (webhook error: "5xx" | "refused" | "eof"
+// (connection closed without an answer); webhook deny: "deny" | "null" | "emptyobj";
+// webhook malformed: "garbage" | "4xx" | "empty" (200 without body) | "truncated" | "wrongtype").
 type Fault struct {
 	Pos  int
 	Kind string
@@ -290,6 +292,24 @@ func webhookServer() *httptest.Server {
 			w.Write([]byte(`{"allow":true}`))
 		case "garbage":
 			w.Write([]byte(`<<< not json`))
+		case "empty": // 200 without a body
+			w.WriteHeader(http.StatusOK)
+		case "truncated":
+			w.Write([]byte(`{"allow":tr`))
+		case "wrongtype":
+			w.Write([]byte(`{"allow":"yes"}`))
+		case "null":
+			w.Write([]byte(`null`))
+		case "emptyobj":
+			w.Write([]byte(`{}`))
+		case "eof": // take the request, close the connection without answering
+			if hj, ok := w.(http.Hijacker); ok {
+				if conn, _, err := hj.Hijack(); err == nil {
+					conn.Close()
+					return
+				}
+			}
+			w.WriteHeader(http.StatusInternalServerError)
 		case "hang":
 			select {
 			case <-r.Context().Done():
@@ -350,25 +370,48 @@ func (t *faultTransport) RoundTrip(req *http.Request) (*http.Response, error) {
 		t.rec.log(kind, "ok", req.URL.Path)
 	case "error":
 		t.rec.log(kind, "error", req.URL.Path)
-		if f.Sub == "refused" {
+		switch f.Sub {
+		case "refused":
 			req.URL.Host = t.closed
 			req.Host = t.closed
-		} else {
+		case "eof":
+			req.Header.Set(faultHeader, "eof")
+		default:
 			req.Header.Set(faultHeader, "5xx")
 		}
 	case "deny":
 		t.rec.log(kind, "deny", req.URL.Path)
-		req.Header.Set(faultHeader, "deny")
+		switch f.Sub {
+		case "null", "emptyobj": // a decodable answer that does not say allow
+			req.Header.Set(faultHeader, f.Sub)
+		default:
+			req.Header.Set(faultHeader, "deny")
+		}
 	case "malformed": // not a usable answer: an undecodable body, or an error status below 500
 		t.rec.log(kind, "malformed", req.URL.Path)
-		if f.Sub == "4xx" {
-			req.Header.Set(faultHeader, "4xx")
-		} else {
+		switch f.Sub {
+		case "4xx", "empty", "truncated", "wrongtype":
+			req.Header.Set(faultHeader, f.Sub)
+		default:
 			req.Header.Set(faultHeader, "garbage")
 		}
 	case "timeout":
+		// the server does not answer; the deadline is put on this request only (the way the
+		// controller's own per-webhook context deadline fires), so that no verdict of a
+		// normally answered call depends on the wall clock of a loaded machine
 		t.rec.log(kind, "timeout", req.URL.Path)
 		req.Header.Set(faultHeader, "hang")
+		ctx, cancel := context.WithTimeout(req.Context(), 150*time.Millisecond)
+		defer cancel()
+		resp, err := t.base.RoundTrip(req.WithContext(ctx))
+		if err == nil { // cannot happen with a hanging server; do not leak the body
+			resp.Body.Close()
+			return nil, context.DeadlineExceeded
+		}
+		if ctx.Err() != nil {
+			return nil, context.DeadlineExceeded
+		}
+		return nil, err
 	default:
 		return nil, fmt.Errorf("verif: unknown fault kind %q", f.Kind)
 	}
